@@ -369,6 +369,11 @@ class DirectObjectAccess:
                         pass
             return False, False, None
         else:
+            if type(attr) is classmethod and (3, 9) <= sys.version_info < (3, 13):
+                # In these versions classmethod.__get__ calls the __get__ of
+                # the wrapped object (e.g. a property), so check that instead.
+                attr = attr.__func__
+                is_get_descriptor = getattr_static(type(attr), '__get__', None)[0] is not None
             if is_get_descriptor and type(attr) not in ALLOWED_DESCRIPTOR_ACCESS:
                 if isinstance(attr, property):
                     if hasattr(attr.fget, '__annotations__'):
